@@ -183,6 +183,10 @@ func (itr *BrokerRowFlatDecoder) rebuild() error {
 	if !ok {
 		goto End
 	}
+	if compoundFieldItr.f.ValuesLength() != compoundFieldItr.f.ExplicitBoundsLength() {
+		// NOTE: iterator walks min(values, bounds), cannot drop the values/bounds silently
+		return fmt.Errorf("compound field values/explicit bounds length not match")
+	}
 	for compoundFieldItr.HasNextBucket() {
 		itr.compoundBounds = append(itr.compoundBounds, compoundFieldItr.NextExplicitBound())
 		itr.compoundValues = append(itr.compoundValues, compoundFieldItr.NextValue())
